@@ -27,6 +27,7 @@ RULE = (
     '4 site pairs x starts x durations), all triples J3a x J3a x J3b with J3b long-transit jumps of a third '
     'atom, x window lengths x cut-offs placed between all distinct site spacings (one spacing only through a '
     'cell face; four sites so that jumps can use disjoint site pairs; skewed cells with a cut-off between true and component-wise-rounded image distance; site structure with its own cell) x lattices; each table is one execution of the real Collective; distinct = distinct (table, window, cutoff, reported pair set)'
+    '; reversed tables carry non-default row labels; cut-offs 0.0 / 0.7 / 0 through Jumps.collective on a four-site history whose two jumps share no site'
 )
 LEVEL_TEXT = (
     'Exhaustive over all jump tables of the bounded alphabet (incl. long-transit jumps overlapping '
